@@ -3482,3 +3482,20 @@ mod tests {
         assert!(matches!(err, Error::IoError(..)));
     }
 }
+
+#[cfg(egglog_verif)]
+impl EGraph {
+    /// Verification hook (compiled only with `--cfg egglog_verif`): re-check a proof — possibly
+    /// produced by a different e-graph — against THIS e-graph's original, un-instrumented program.
+    pub fn verif_check_proof(
+        &self,
+        store: &crate::proof::ProofStore,
+        proof_id: crate::proof::ProofId,
+    ) -> Result<(), String> {
+        store
+            .clone()
+            .check_proof(proof_id, &self.proof_check_program)
+            .map(|_| ())
+            .map_err(|e| format!("{e:?}"))
+    }
+}
